@@ -69,6 +69,13 @@ def gen(seed, tier):
     if window:
         # submissions inside the launch window: between accept() being called and `running` being set
         scripts[0][0] = ["wait-marker", "accept-call"]
+        if rng.random() < 0.5:
+            # ... with the submitting thread descheduled inside the registration until the
+            # event loop thread has got some way through launching / flushing the queue
+            knobs["stalls"] = knobs["stalls"] + [
+                {"func": rng.choice(["register_payload", "register_payload", "adopt"]), "not_main": True, "nth": rng.randint(1, 6), "dur": 1.0,
+                 "until": rng.choice(["_launch_runners", "_manage_runners", "_unqueue_payloads"]), "k": rng.randint(1, 8)}
+            ]
     if race:
         # submissions racing with a termination of any kind; a trio payload with shielded cleanup keeps the
         # runtime "finishing its payloads' cleanup" for a while so that late adopts fall into that phase
